@@ -34,11 +34,15 @@
    the reference object keeps its emission stacks balanced              C12_reference_stacks_balanced
    fuel: every history completes (no OutOfFuel) from some fuel on,      C12_enough_fuel_exists, C12_reference_step_terminates,
    and a finished run is the same for every larger fuel                 C12_fuel_irrelevant_model, C12_fuel_irrelevant_reference
+   (representation) no node is unlinked from a signal's slot list       C12_no_unlink_while_emitting (each of the seven library
+   while an emission of that signal is in progress - what makes the     primitives; only ~Emitter of that emitter and the end of the
+   model's "iterator = index" faithful to the C++ list iterators:        outermost emission remove nodes), C12_slot_keeps_nodes,
+   entries are only appended or re-marked                                C12_emission_keeps_nodes (whatever the slots do, any nesting)
    (tie) the interpreter the correspondence driver runs, which also     C12_trace_erasure
    records the emitting signal's internal data at every slot entry
    and exit, is the proved interpreter plus that trace *)
 From Coq Require Import List Arith Bool.
-From Callback Require Import CallbackSpec CallbackModel CallbackLists CallbackInv CallbackOps CallbackDestroy CallbackSim CallbackMain CallbackFuel CallbackTrace CallbackProofs.
+From Callback Require Import CallbackSpec CallbackModel CallbackLists CallbackInv CallbackOps CallbackDestroy CallbackSim CallbackNodes CallbackMain CallbackFuel CallbackTrace CallbackProofs.
 Import ListNotations.
 
 Theorem C12_refinement_init : forall ne nl nsg, R (init ne nl nsg) (sp_init ne nl nsg) /\ Quiet (sp_init ne nl nsg).
@@ -154,6 +158,34 @@ Theorem C12_cleanup_leaves_connected : forall sl, forallb is_conn (cleanup sl) =
 Proof. exact cleanup_all_connected. Qed.
 Print Assumptions C12_cleanup_leaves_connected.
 
+Theorem C12_no_unlink_while_emitting : forall st p st' e sg,
+  run_prim st p = Some st' ->
+  e_alive (st_E st e) = true -> actsOf (sdo st e sg) <> [] ->
+  (p = PDestroyE e /\ e_alive (st_E st' e) = false) \/
+  (p = PEnd e sg /\ length (actsOf (sdo st e sg)) = 1) \/
+  (e_alive (st_E st' e) = true /\ actsOf (sdo st' e sg) <> [] /\
+   exists appended, map node (slotsOf (sdo st' e sg)) = map node (slotsOf (sdo st e sg)) ++ appended).
+Proof. exact prim_no_removal. Qed.
+Print Assumptions C12_no_unlink_while_emitting.
+
+Theorem C12_slot_keeps_nodes : forall sc maxd fuel d st lg acts st' lg' e sg,
+  exec sc maxd fuel d st lg acts = Done (st', lg') ->
+  e_alive (st_E st e) = true -> actsOf (sdo st e sg) <> [] ->
+  e_alive (st_E st' e) = false \/
+  (e_alive (st_E st' e) = true /\ length (actsOf (sdo st' e sg)) = length (actsOf (sdo st e sg)) /\
+   exists appended, map node (slotsOf (sdo st' e sg)) = map node (slotsOf (sdo st e sg)) ++ appended).
+Proof. exact exec_keeps_nodes. Qed.
+Print Assumptions C12_slot_keeps_nodes.
+
+Theorem C12_emission_keeps_nodes : forall sc maxd fuel d st lg e0 sg0 st' lg' e sg,
+  loop sc maxd fuel d st lg e0 sg0 = Done (st', lg') ->
+  e_alive (st_E st e) = true -> actsOf (sdo st e sg) <> [] ->
+  e_alive (st_E st' e) = false \/
+  (e_alive (st_E st' e) = true /\ length (actsOf (sdo st' e sg)) = length (actsOf (sdo st e sg)) /\
+   exists appended, map node (slotsOf (sdo st' e sg)) = map node (slotsOf (sdo st e sg)) ++ appended).
+Proof. exact loop_keeps_nodes. Qed.
+Print Assumptions C12_emission_keeps_nodes.
+
 (* ---- non-vacuity: concrete histories on which the hypotheses hold and something happens ---- *)
 (* slot 0.0 disconnects, re-connects and disconnects itself inside one emission, then its listener dies
    (the history that used to leave a dangling slot): the log is one invocation, then nothing *)
@@ -201,3 +233,22 @@ Example ex_wok : WOK (sp_begin (sp_connect (sp_init 1 1 1) 0 0 0 0) 0 0).
 Proof. exact (WOK_begin _ 0 0 (WOK_connect _ 0 0 0 0 (WOK_init 1 1 1))). Qed.
 Example ex_cleanup : cleanup [mkSlot 0 0 Disconnected; mkSlot 0 1 Connecting; mkSlot 1 1 Connected] = [mkSlot 0 1 Connected; mkSlot 1 1 Connected].
 Proof. reflexivity. Qed.
+
+(* node-level safety on a concrete state: (E0, signal 0) is emitting with two slots; a disconnect from inside marks
+   the entry and leaves both nodes in place, and a whole slot script (disconnect, connect, disconnect, nested
+   re-emission) returns with the same activation chain length and the two old nodes followed by the appended one *)
+Definition ex_emitting : state :=
+  match connect (init 2 2 1) 0 0 0 0 with
+  | Some s1 => match connect s1 0 0 1 1 with
+               | Some s2 => match emit_begin s2 0 0 with Some s3 => s3 | None => s2 end
+               | None => s1 end
+  | None => init 2 2 1 end.
+Example ex_emitting_active : e_alive (st_E ex_emitting 0) = true /\ length (actsOf (sdo ex_emitting 0 0)) = 1.
+Proof. split; reflexivity. Qed.
+Example ex_disconnect_marks : exists st', run_prim ex_emitting (PDisconnect 0 0 0 0) = Some st' /\
+  slotsOf (sdo st' 0 0) = [mkSlot 0 0 Disconnected; mkSlot 1 1 Connected] /\ length (actsOf (sdo st' 0 0)) = 1.
+Proof. eexists. split; [vm_compute; reflexivity|]. split; reflexivity. Qed.
+Example ex_script_keeps_nodes : exists st' lg',
+  exec ex_sc1 3 100 1 ex_emitting [] [ADisconnect 0 0 0 0; AConnect 0 0 0 0; ADisconnect 0 0 0 0; AEmit 0 0] = Done (st', lg') /\
+  map node (slotsOf (sdo st' 0 0)) = map node (slotsOf (sdo ex_emitting 0 0)) ++ [(0, 0)] /\ length (actsOf (sdo st' 0 0)) = 1.
+Proof. eexists. eexists. split; [vm_compute; reflexivity|]. split; reflexivity. Qed.
